@@ -36,7 +36,7 @@ def cfgValStr : CfgVal → String
 def failingClauses (l : Layout) (d : LayoutD) : List String :=
   (if alignedB l d then [] else ["aligned"]) ++ (if resetsB l d then [] else ["resets"]) ++
   (if enumsFitB l d then [] else ["enums"]) ++ (if computedTargetsB l d then [] else ["computed"]) ++
-  (if regNamesB l d then [] else ["regnames"]) ++ (if fieldNamesB d then [] else ["fieldnames"]) ++
+  (if regNamesB l d then [] else ["regnames"]) ++ (if findRegB d then [] else ["findreg"]) ++ (if fieldNamesB d then [] else ["fieldnames"]) ++
   (if sealRegsB l then [] else ["seal"]) ++
   (if l.kind == 6 && !fcbTableB Generated.RegLayouts.fcbSize Generated.RegLayouts.fcbTag l d then ["fcb"] else []) ++
   (if l.kind == 4 && !fcbTableB Generated.RegLayouts.bcaSize Generated.RegLayouts.bcaTag l d then ["bca"] else []) ++
